@@ -929,3 +929,43 @@ def conjunction_of_comparisons(f):
             return atoms, None
         return None, "unexpected terminator %s" % t["t"]
     return None, "too long"
+
+
+def ref_base(f, op):
+    """Local whose address the operand holds (`&mut x` -> x), following copies."""
+    seen = set()
+    while op is not None and op.get("k") in ("copy", "move") and not op["pl"]["p"] and op["pl"]["l"] not in seen:
+        l = op["pl"]["l"]
+        seen.add(l)
+        ds = [st for b in f.blocks for st in b.st if st["s"] == "=" and not st["lhs"]["p"] and st["lhs"]["l"] == l]
+        if len(ds) != 1:
+            return l
+        rv = ds[0]["rv"]
+        if rv["r"] == "ref":
+            pl = rv["pl"]
+            if [e for e in pl["p"] if e != "*"]:
+                return None
+            if "*" in pl["p"]:
+                op = {"k": "copy", "pl": {"l": pl["l"], "p": []}}
+                continue
+            return pl["l"]
+        if rv["r"] == "use":
+            op = rv["a"]
+            continue
+        return l
+    return None
+
+
+def root_local(f, op):
+    """The user variable an operand is a plain copy of (None when it is computed)."""
+    seen = set()
+    while op is not None and op.get("k") in ("copy", "move") and not op["pl"]["p"]:
+        l = op["pl"]["l"]
+        if f.local_name(l) or l in seen or l <= f.argc:
+            return l
+        seen.add(l)
+        ds = [st for b in f.blocks for st in b.st if st["s"] == "=" and not st["lhs"]["p"] and st["lhs"]["l"] == l]
+        if len(ds) != 1 or ds[0]["rv"]["r"] != "use":
+            return l
+        op = ds[0]["rv"]["a"]
+    return None
